@@ -10,6 +10,11 @@ sub-behaviour, mini-protocol message it can push as InterfaceCommand::Send):
            InitiatorState).  Otherwise two passes before the echo take the same decision and the same initiator-agency message (or
            a second request) goes out twice, which the peer's state machine (`State::apply`, C24) rejects.
            Writes to the sub-behaviour's own fields (`self.requests.pop_front()`) are not per-peer and do not count.
+ R-ONCE    one emission per visit.  The mini-protocols are strict request/response: after one initiator message the agency
+           is the peer's.  The push of Send(pid, m) for the visitor's own peer must not lie on a CFG cycle of the visitor or of
+           a helper it calls (and the call of an emitting helper must not lie on one) — a loop that can push two messages of
+           one protocol to one peer in a single invocation — unless every turn of that cycle writes the per-peer protocol
+           state (or a per-peer field the guard reads).  Reported under its own key (`once:`), independent of R-MARK.
  R-PERMIT  the message is permitted by the specification (spec/ouroboros.json, the relation C24 compares `apply` with) in
            every protocol state the emitter's guard admits; a missing guard admits every state.
 
@@ -217,6 +222,46 @@ class Analyser:
         self._pred[key] = out
         return out
 
+    # ------------------------------------------------------------ one emission per visit
+    @staticmethod
+    def pid_root(term):
+        ch = flow.origin_chain(term)
+        if ch is None:
+            return "?"
+        if ch[0][0] == "param":
+            return ("param", ch[0][1])
+        return "other"
+
+    def cycle_marked(self, F, pidx, bb, fields):
+        """Does every turn of the CFG cycle through bb write one of the per-peer `fields` (keys relative to the state parameter)?"""
+        if pidx is None:
+            return False
+        cyc = [c for c in F.live_blocks() if c == bb or (F.can_reach(c, bb) and F.can_reach(bb, c))]
+        wblocks = []
+        for c in cyc:
+            b = F.blocks[c]
+            for st in b["st"]:
+                if st[0] == "a" and not isinstance(st[1], int):
+                    rc = rel_chain(F.sym_place(st[1]), pidx)
+                    if rc and rc[:1] in fields:
+                        wblocks.append(c)
+            t = b["term"]
+            if t["k"] == "call":
+                g = self.P.fns.get(t.get("f") or "")
+                for i, a in enumerate(t["args"]):
+                    rc = rel_chain(F.sym_operand(a), pidx)
+                    if rc is None:
+                        continue
+                    if g is not None:
+                        if any((rc + tuple(ch))[:1] in fields for ch in self.must_writes(g, i + 1)):
+                            wblocks.append(c)
+                    elif rc and rc[:1] in fields and call_is_mut_receiver(F, c, i):
+                        wblocks.append(c)
+        for w in wblocks:
+            if w == bb or not any(s2 == bb or F.can_reach(s2, bb, avoid=(w,)) for s2 in F.succ(bb) if s2 != w):
+                return True
+        return False
+
     # ------------------------------------------------------------ messages
     def resolve_msg(self, sym):
         """(AnyMessage variant, {message variants}) of a term of type AnyMessage; None when not resolvable."""
@@ -292,7 +337,7 @@ class Analyser:
                     r = (r[0], self.local_msg_variants(F, inner[1]))
                 elif inner is not None and inner[0] == "param":
                     r = (r[0], ("<param>", inner[1]))
-            direct.setdefault(bi, []).append(r)
+            direct.setdefault(bi, []).append(r + (self.pid_root(F.sym_operand(rv["fields"][0])),))
         has_sub = False
         for g, t, bi in P.callees(F):
             if g.path.startswith(INIT) and "::tests::" not in g.path and g is not F and depth > 0 and self.emissions(g, depth - 1):
@@ -310,7 +355,7 @@ class Analyser:
             evs = []
             for bb in p.blocks:
                 for r in direct.get(bb, []):
-                    evs.append((r, (F, bb), {}, set(), set()))
+                    evs.append((r[:2], (F, bb), {}, set(), set(), bb, False, r[2]))
             for callee, args, bb in p.calls:
                 g = P.fns.get(callee)
                 if g is None or not g.path.startswith(INIT) or depth <= 0:
@@ -318,8 +363,11 @@ class Analyser:
                 gp = state_param(g)
                 for e in self.emissions(g, depth - 1):
                     if e.get("unanalysable"):
-                        evs.append((("?", {"?"}), e["site"], {}, set(), set()))
+                        evs.append((("?", {"?"}), e["site"], {}, set(), set(), bb, False, "?"))
                         continue
+                    spid = e.get("pid", "?")
+                    if isinstance(spid, tuple) and spid[0] == "param":
+                        spid = self.pid_root(args[spid[1] - 1]) if spid[1] - 1 < len(args) else "?"
                     a_any, a_msgs = e["any"], e["msgs"]
                     if a_any == "<param>":
                         r = self.resolve_msg(args[a_msgs - 1]) if a_msgs - 1 < len(args) else None
@@ -333,7 +381,7 @@ class Analyser:
                         cons = {rc + k: v for k, v in e["cons"].items()}
                         reads = {(rc + k)[:1] for k in e["reads"]}
                         writes = {(rc + k)[:1] for k in e["writes"]}
-                    evs.append(((a_any, a_msgs), e["site"], cons, reads, writes))
+                    evs.append(((a_any, a_msgs), e["site"], cons, reads, writes, bb, bool(e.get("cyclic")), spid))
             if not evs:
                 continue
             cons, reads = {}, set()
@@ -365,10 +413,13 @@ class Analyser:
                         rc = rel_chain(a, pidx)
                         if rc is not None and rc and call_is_mut_receiver(F, bb, i):
                             writes.add(rc[:1])
-            for (r, site, scons, sreads, swrites) in evs:
+            for (r, site, scons, sreads, swrites, ebb, scyc, spid) in evs:
                 a_any, a_msgs = r
                 k = (a_any, frozenset(a_msgs) if isinstance(a_msgs, set) else a_msgs, site[0].path, site[1])
-                rec = recs.setdefault(k, {"any": a_any, "msgs": a_msgs, "site": site, "alts": [], "reads": set(), "wpaths": []})
+                rec = recs.setdefault(k, {"any": a_any, "msgs": a_msgs, "site": site, "alts": [], "reads": set(), "wpaths": [], "evbbs": set(), "pid": spid})
+                rec["evbbs"].add((ebb, scyc))
+                if rec["pid"] != spid:
+                    rec["pid"] = "?"
                 rec["alts"].append(merge_and(cons, scons))
                 rec["reads"] |= reads | sreads
                 rec["wpaths"].append(writes | swrites)
@@ -378,7 +429,12 @@ class Analyser:
             w = None
             for ws in rec["wpaths"]:
                 w = set(ws) if w is None else (w & ws)
-            out.append({"any": rec["any"], "msgs": rec["msgs"], "site": rec["site"], "cons": merge_or(rec["alts"]),
+            fields = set(rec["reads"])
+            fld = getattr(self, "fmap", {}).get(rec["any"])
+            if fld:
+                fields.add((fld,))
+            cyclic = any(scyc or (F.in_loop(ebb) and not self.cycle_marked(F, pidx, ebb, fields)) for ebb, scyc in rec["evbbs"])
+            out.append({"cyclic": cyclic, "pid": rec["pid"], "any": rec["any"], "msgs": rec["msgs"], "site": rec["site"], "cons": merge_or(rec["alts"]),
                         "reads": rec["reads"], "writes": w or set()})
         return out
 
@@ -414,6 +470,7 @@ def run(tier):
     st_adt = P.adt(STATE)
     ftype = {fl["name"]: strip_adt(fl["ty"]) for fl in st_adt["variants"][0]["fields"]} if st_adt else {}
     A = Analyser(P)
+    A.fmap = fmap
     sites = set()
     for f in P.fns.values():
         if f.path.startswith(INIT) and "::tests::" not in f.path:
@@ -456,6 +513,15 @@ def run(tier):
                               "advances on the interface's Sent echo, so a second pass before the echo emits again and the peer's %s state machine rejects it" % (
                                   beh, V.name, e["any"], "|".join(sorted(msgs)), ", ".join(sorted(reads)) or "nothing", ", ".join(sorted(writes)) or "none", field),
                               where=wh, rule="R-MARK")
+            # ---- R-ONCE
+            pid_param = 2   # PeerVisitor methods: (self, pid, state, outbound)
+            same_peer = e.get("pid") in (("param", pid_param), "?")
+            if e.get("cyclic") and same_peer:
+                res.violation("once:" + label, "%s::%s can push Send(%s::%s) to its peer more than once in a single invocation: the push lies on a loop that does not advance "
+                              "that peer's %s state, so the second message is sent while the agency is the peer's (the mini-protocol is strict request/response)" % (
+                                  beh, V.name, e["any"], "|".join(sorted(msgs)), field), where=wh, rule="R-ONCE")
+            else:
+                res.ok("once:" + label, "R-ONCE", "the push is on no cycle of the visitor or its helpers" if not e.get("cyclic") else "the loop addresses other peers")
             # ---- R-PERMIT
             adt = P.adt(ftype.get(field, ""))
             proto = ftype.get(field, "").split("::protocol::")[-1].split("::")[0]
@@ -488,8 +554,9 @@ def run(tier):
     return finish(res,
                   explanation="Per emitter (PeerVisitor method x message) of the initiator: R-MARK — a re-triggerable emitter whose decision reads per-peer "
                               "state must change per-peer state its guard reads on the emitting path, else a second trigger before the Sent echo repeats the "
-                              "emission (two housekeeping passes => the same initiator-agency message twice); R-PERMIT — the message is an initiator message of "
+                              "emission (two housekeeping passes => the same initiator-agency message twice); R-ONCE — the push is on no loop of the visitor or its helpers "
+                              "unless each turn advances the peer's protocol state (one request per visit); R-PERMIT — the message is an initiator message of "
                               "the specification in every protocol state the guard admits. Guards are read from tabulated paths, predicates recursively. "
                               "Does NOT decide conformance of longer emitted sequences or payloads.",
-                  rule_text="R-MARK(emitters of behavior::initiator) + R-PERMIT(message vs guard state against spec/ouroboros.json)",
+                  rule_text="R-MARK(emitters of behavior::initiator) + R-ONCE(no emission on a cycle) + R-PERMIT(message vs guard state against spec/ouroboros.json)",
                   trusted_base=["rustc MIR", "spec/ouroboros.json"])
